@@ -248,8 +248,8 @@ def partition_problem(
         # Qubits labeled ``None`` are idle and are dropped from the subcircuits,
         # so they may only carry the identity.
         idle_observables = subobservables_by_subsystem.pop(None, None)
-        if idle_observables is not None and (
-            idle_observables.x.any() or idle_observables.z.any()
+        if idle_observables is not None and any(
+            obs.x.any() or obs.z.any() for obs in idle_observables
         ):
             raise ValueError(
                 "An input observable acts non-trivially on a qubit with a partition "
